@@ -13,10 +13,13 @@ Step(s, e, ln) ==
   IF e.ev # "dget" \/ e.res.k = "skipped" THEN s
   ELSE LET bad == "C19" \in Enforce /\ ~C19_OK(e)
            \* Strict: the model's resolution against the operating system's, and the Impl algorithm
+           \* (paths padded to PATH_MAX with thousands of "." segments are judged by C19_OK against the
+           \* operating system's answers only: the model knows no length limit)
+           long == Len(e.abs.segs) > 64
            m == Resolve("base", e.abs.segs)
-           osOK == e.abs.nul \/ (Len(e.abs.segs) > 1 /\ e.abs.segs[1] = "") \/ OsCore(e.plain) = m
+           osOK == long \/ e.abs.nul \/ (Len(e.abs.segs) > 1 /\ e.abs.segs[1] = "") \/ OsCore(e.plain) = m
            r == ImplGet(e.abs, e.ae, e.auto)
-           implOK == IF r.k = "err" THEN e.res.k = "err" /\ e.res.kind = r.kind
+           implOK == IF long THEN TRUE ELSE IF r.k = "err" THEN e.res.k = "err" /\ e.res.kind = r.kind
                      ELSE e.res.k = "node" /\ e.res.name = r.name /\ (e.res.enc = "gzip") = (r.k = "gznode")
        IN [s EXCEPT !.cases = s.cases + 1,
                     !.viol = IF bad THEN s.viol \cup {<<e.case, ln, "C19", "FsDir::get">>} ELSE s.viol,
